@@ -361,6 +361,9 @@ def compare_terms(self, o, left, right):
             alts = [T.mk_cmp('==', left, e) for e in ra.args]
             r = T.mk_or(alts)
             return r if o == 'in' else T.mk_not(r)
+    if o in ('in', 'not in'):
+        r = T.mk_in(left, right)
+        return r if o == 'in' else T.mk_not(r)
     if o in ('is', 'is not'):
         la, ra = left.single_atom(), right.single_atom()
         if ra is not None and ra.kind == 'none' and la is not None and la.kind in (
